@@ -60,4 +60,47 @@ theorem lastHandler_of (s : State) (h : Handler) (r : List Handler) (hh : handle
   unfold handlersOf at hh
   simp [lastHandler, hh]
 
+/-! ### loops over stack slots, allocation, slices -/
+
+set_option linter.unusedSimpArgs false
+set_option linter.unusedVariables false
+
+theorem exec_forIn_list_stackSet (v : V) (l : List Nat) (s : State)
+    (f : Nat → Int) (hb : ∀ k ∈ l, 0 ≤ f k ∧ f k < (stackSize : Int)) :
+    exec (forIn l () (fun k _ => do stackSet (f k) v; pure (ForInStep.yield ()))) s =
+      (.ok (), { s with stack := l.foldl (fun st k => st.set! (f k).toNat v) s.stack }) := by
+  induction l generalizing s with
+  | nil => simp [exec_pure]
+  | cons k r ih =>
+    simp only [List.forIn_cons, exec_bind]
+    rw [exec_stackSet _ _ _ (hb k (by simp))]
+    simp only [exec_pure]
+    rw [ih _ (fun k hk => hb k (by simp [hk]))]
+    simp
+
+/-- the Go loop `for k := 0; k < n; k++ { vm.stack[f(k)] = v }` -/
+theorem exec_range_stackSet (v : V) (n : Nat) (s : State) (f : Nat → Int)
+    (hb : ∀ k, k < n → 0 ≤ f k ∧ f k < (stackSize : Int)) :
+    exec (forIn [:n] PUnit.unit (fun k _ => do stackSet (f k) v; pure (ForInStep.yield PUnit.unit))) s =
+      (.ok PUnit.unit, { s with stack := (List.range' 0 n).foldl (fun st k => st.set! (f k).toNat v) s.stack }) := by
+  simp only [Std.Legacy.Range.forIn_eq_forIn_range', Std.Legacy.Range.size]
+  have := exec_forIn_list_stackSet v (List.range' 0 n) s f (by
+    intro k hk; simp [List.mem_range'] at hk; exact hb k (by omega))
+  simpa using this
+
+theorem exec_alloc (c : Cell) (s : State) : exec (alloc c) s = (.ok s.heap.size, { s with heap := s.heap.push c }) := rfl
+
+theorem exec_newArray (xs : List V) (s : State) :
+    exec (newArray xs) s = (.ok (.arr s.heap.size 0 xs.length), { s with heap := s.heap.push (.arr xs.toArray) }) := by
+  unfold newArray
+  simp only [exec_bind, exec_alloc, exec_pure]
+
+theorem exec_stackSlice (lo hi : Int) (s : State) (h : 0 ≤ lo ∧ lo ≤ hi ∧ hi ≤ (stackSize : Int)) :
+    exec (stackSlice lo hi) s = (.ok ((s.stack.toList.drop lo.toNat).take (hi - lo).toNat), s) := by
+  unfold stackSlice
+  have : ¬ ((decide (lo < 0) || decide (hi > (stackSize : Int)) || decide (lo > hi)) = true) := by
+    simp; omega
+  simp only [this, Bool.false_eq_true, ↓reduceIte, exec_bind, exec_getS, exec_pure]
+
+
 end UgoVerif.Proofs.VMExec
